@@ -1,0 +1,102 @@
+//go:build verif
+
+package server
+
+// Verification hooks (build tag verif): export the request handler, the
+// transmit-timestamp update and a read-only view of the timestamp store so
+// that an external harness can drive and observe them. Nothing in here is
+// compiled into regular builds.
+
+import (
+	"container/heap"
+	"time"
+
+	"example.com/scion-time/net/ntp"
+)
+
+const (
+	VerifTssCap     = tssCap
+	VerifTssItemCap = tssItemCap
+)
+
+// VerifTrace, if set, is called as the last statement of handleRequest ("H")
+// and updateTXTimestamp ("U"), i.e. after the state change and while tssMu
+// is still held. The *Locked functions below may be called from it.
+var VerifTrace func(op, clientID string, req *ntp.Packet, rxt, txt *time.Time, resp *ntp.Packet)
+
+func traceOp(op, clientID string, req *ntp.Packet, rxt, txt *time.Time, resp *ntp.Packet) {
+	if f := VerifTrace; f != nil {
+		f(op, clientID, req, rxt, txt, resp)
+	}
+}
+
+func VerifHandleRequest(clientID string, req *ntp.Packet, rxt, txt *time.Time, resp *ntp.Packet) {
+	handleRequest(clientID, req, rxt, txt, resp)
+}
+
+func VerifUpdateTXTimestamp(clientID string, rxt time.Time, txt *time.Time) {
+	updateTXTimestamp(clientID, rxt, txt)
+}
+
+type VerifPair struct{ Rxt, Txt ntp.Time64 }
+
+type VerifItem struct {
+	Key   string
+	Pairs []VerifPair
+	Qval  ntp.Time64
+	Qidx  int
+}
+
+func verifItem(tssi *tssItem) VerifItem {
+	it := VerifItem{Key: tssi.key, Qval: tssi.qval, Qidx: tssi.qidx}
+	for i := 0; i != tssi.len; i++ {
+		it.Pairs = append(it.Pairs, VerifPair{tssi.buf[i].rxt, tssi.buf[i].txt})
+	}
+	return it
+}
+
+// VerifLookupLocked returns a copy of one client's item. Caller holds tssMu.
+func VerifLookupLocked(clientID string) (VerifItem, bool) {
+	tssi, ok := tss[clientID]
+	if !ok {
+		return VerifItem{}, false
+	}
+	return verifItem(tssi), true
+}
+
+// VerifSizesLocked returns len(tss) and len(tssQ). Caller holds tssMu.
+func VerifSizesLocked() (int, int) { return len(tss), len(tssQ) }
+
+// VerifQueueAtLocked returns a copy of the item at heap position i and whether
+// the map entry for its key is this very item. Caller holds tssMu.
+func VerifQueueAtLocked(i int) (VerifItem, bool) {
+	tssi := tssQ[i]
+	return verifItem(tssi), tss[tssi.key] == tssi
+}
+
+// VerifLocked runs f while holding tssMu.
+func VerifLocked(f func()) {
+	tssMu.Lock()
+	defer tssMu.Unlock()
+	f()
+}
+
+// VerifReset removes every client for which keep returns false.
+func VerifReset(keep func(clientID string) bool) {
+	tssMu.Lock()
+	defer tssMu.Unlock()
+	q := tssQ[:0]
+	for _, tssi := range tssQ {
+		if keep != nil && keep(tssi.key) {
+			tssi.qidx = len(q)
+			q = append(q, tssi)
+		} else {
+			delete(tss, tssi.key)
+		}
+	}
+	for i := len(q); i < len(tssQ); i++ {
+		tssQ[i] = nil
+	}
+	tssQ = q
+	heap.Init(&tssQ)
+}
